@@ -434,6 +434,7 @@ fn families() -> Vec<Fam> {
         ("dot", Box::new(|k| fam_dot_matmul(k, Op::Dot))),
         ("matmul", Box::new(|k| fam_dot_matmul(k, Op::Matmul))),
         ("gemm", Box::new(|k| fam_gemm(k))),
+        ("batch_products", Box::new(|k| fam_batch_products(k))),
         ("sum", Box::new(|k| fam_sum(k))),
         ("cumsum", Box::new(|k| fam_cumsum(k))),
         ("permute_axes", Box::new(|k| fam_permute(k))),
